@@ -459,19 +459,24 @@ fn large_size_case<S: Dens>(m: usize, base: u64, n: u64) -> Result<(), String> {
     }
 }
 
+/// stream length for a large size: 2^17 items, but at least m/8 (the optimal densification probes about m/n bins per empty
+/// bin, so a nearly empty sketch of 2^24 bins would take minutes) and at most 4m
+fn large_n(m: usize) -> u64 {
+    (1u64 << 17).max(m as u64 / 8).min(4 * m as u64).max(64)
+}
+
 fn large_sizes(ctx: &Ctx, base: u64) -> u64 {
     let mut sizes: Vec<usize> = vec![255, 256, 257, 1000, 4097, 50_000, 65_535, 65_536, 65_537, 1_000_003, 3 << 20];
     if !ctx.quick() {
         sizes.extend_from_slice(&[(1 << 24) + 1, 5 << 22]);
     }
-    let n: u64 = 1 << 17;
     let mut cases = 0;
     macro_rules! go {
         ($t:ty, $tag:expr, $maxm:expr) => {
             let mut reported = false;
             for &m in sizes.iter().filter(|m| **m <= $maxm) {
                 cases += 1;
-                if let Err(w) = large_size_case::<$t>(m, base << 8, n.min(4 * m as u64).max(64)) {
+                if let Err(w) = large_size_case::<$t>(m, base << 8, large_n(m)) {
                     if !reported {
                         reported = true;
                         ctx.violation(&format!("large-size:{}", $tag), &w, json!({"kind": "large", "sketcher": $tag, "m": m, "base": base << 8}));
@@ -622,12 +627,13 @@ fn empty_stream_cases(ctx: &Ctx, stats: &mut Vec<Value>) -> u64 {
 }
 
 pub fn run(ctx: &Ctx) -> i32 {
-    // a watched call that runs for more than 20 s is a non-terminating finish
+    // a watched call that runs for more than 60 s is a non-terminating finish (the largest legitimate call, a stream of 2.6e6
+    // items into 2e7 bins, takes about 10 s on an idle machine)
     let ctx_ptr: &'static Ctx = unsafe { &*(ctx as *const Ctx) };
-    start_watchdog(Duration::from_secs(20), move |desc| {
+    start_watchdog(Duration::from_secs(60), move |desc| {
         ctx_ptr.violation(
             "nontermination",
-            &format!("a {} call on a non-empty stream did not return within 20 s", desc),
+            &format!("a {} call on a non-empty stream did not return within 60 s", desc),
             json!({"kind": "watchdog", "call": desc}),
         );
         let code = ctx_ptr.finish(
@@ -736,7 +742,7 @@ pub fn run(ctx: &Ctx) -> i32 {
         "rule": "stateright BFS to a fixed point over the complete internal state (hook H3) of the real sketcher; ops: sketch(witness) for one witness item per bin (two for the first and last bin), end_sketch, sketch_slice over 4 chunks (including the empty one), reinit; each transition replays the shortest history on a fresh real instance; on every finishing edge: populated bins unchanged, every other bin holds the (value,hash) of a populated bin, nb_empty=0, all positions are hashes of streamed items, u32 view = murmur3(127) of u64 view, equal u64 entries => equal float/u32 entries, second end_sketch is a no-op, sketch_slice = item-wise + end_sketch, reinit = initial state; plus every non-empty occupancy pattern for larger m; finishing an empty stream runs in a supervised sub-process with a 5 s horizon",
         "spaces": spaces,
         "direct_occupancy_patterns": tot_patterns,
-        "large_sizes": {"cases": n_large, "what": "m in {255,256,257,1000,4097,50000,65535,65536,65537,1000003,3*2^20} (thorough: 2^24+1, 5*2^22), 4 sketcher types, one stream of min(2^17,4m) consecutive identifiers: sketch_slice = item-wise + end_sketch on the whole internal state, and the finishing-edge invariants; one stream per size, not exhaustive"},
+        "large_sizes": {"cases": n_large, "what": "m in {255,256,257,1000,4097,50000,65535,65536,65537,1000003,3*2^20} (thorough: 2^24+1, 5*2^22), 4 sketcher types, one stream of min(max(2^17, m/8), 4m) consecutive identifiers: sketch_slice = item-wise + end_sketch on the whole internal state, and the finishing-edge invariants; one stream per size, not exhaustive"},
         "empty_stream_cases": empty_stats,
     });
     ctx.finish(
@@ -775,7 +781,7 @@ pub fn replay(_ctx: &Ctx, case: &Value) -> Result<(bool, String), String> {
         Some("large") => {
             let m = case["m"].as_u64().ok_or("m")? as usize;
             let base = case["base"].as_u64().ok_or("base")?;
-            let n = (1u64 << 17).min(4 * m as u64).max(64);
+            let n = large_n(m);
             let r = match case["sketcher"].as_str() {
                 Some("opt64") => large_size_case::<OptDensMinHash<f64, u64, FnvHasher>>(m, base, n),
                 Some("rev64") => large_size_case::<RevOptDensMinHash<f64, u64, FnvHasher>>(m, base, n),
